@@ -10,7 +10,7 @@ RULE = ("symbolic execution (z3) of the MIR of the Function arm -> EvalContext::
 
 
 def check(run, only=None):
-    e3.run_parts(run, ["dispatcher", "two_calls", "ruleset"], only=only, kinds=["Function"])
+    e3.run_parts(run, ["dispatcher", "two_calls", "ruleset", "calling_rules"], only=only, kinds=["Function"])
     run.assumptions += ["derived Debug of Value is injective (debug_of is an uninterpreted function with the injectivity instance for the two arguments)",
                         "registered function names are identifiers (established by add_boxed_function: C15)"]
     run.outside_claim += ["more than two calls per evaluation (covered inductively by (a) for one step from an arbitrary cache)",
